@@ -97,12 +97,18 @@ def micro_known(m, conf):
     return False
 
 
+BAND_KEY = 'rounding-band-exceeded-marginally'
+
+
 def sweep_key(m, conf, key):
-    """the recorded known findings of the sweep, identified by the verif event hooks"""
+    """the recorded known findings of the sweep, identified by the verif event hooks (or, for the marginal
+    band excess, by the absence of any failing point deeper than 1.1 x the band radius)"""
     if lobe_known(m, conf):
         return LOBE_KEY
     if micro_known(m, conf):
         return MICRO_KEY
+    if conf and conf.get('marginal_only'):
+        return BAND_KEY
     return key
 
 
@@ -830,6 +836,8 @@ def run_c13(ctx):
             k = LOBE_KEY
         elif micro_known(m, conf):
             k = MICRO_KEY
+        elif conf and conf.get('marginal_only') and m['mode'] == 'translate':
+            k = BAND_KEY
         elif conf and bits >= 32:
             k = OVERFLOW_KEY
         elif (m.get('op') or '').startswith('InflatePaths64') and mj and int(mj.group(1)) == 1 and max(abs(x) for x in m['v']) >= 2 ** 47:
